@@ -225,6 +225,10 @@ class NormDomain(Domain):
                 return Unknown('conj')
         if dotted in ELEMENTWISE_ID and args:
             return args[0]
+        if dotted == 'numpy.where' and len(args) == 3:
+            if isinstance(args[0], Const) and isinstance(args[0].v, bool):
+                return args[1] if args[0].v else args[2]
+            return Unknown('where with undecided condition')
         if dotted == 'builtins.len' and args and isinstance(args[0], Sym):
             return self.func_atom('len', [args[0]])
         if dotted in ('numpy.zeros_like',) and args and isinstance(args[0], Sym):
